@@ -12,7 +12,7 @@ CONSTANTS
   LimitL = 1
   AggA = 2
   BothDrain = "concurrent"
-  MaxWork = 24
+  MaxWork = 16
   Reduce = TRUE
   Survey = FALSE
 INIT Init
